@@ -140,6 +140,10 @@ func Curated() []*Grammar {
 // No empty alternatives: every tree is finite and every grammar has finitely
 // many trees per input; no unit alternatives, at most two nonterminals per
 // alternative (otherwise result sets explode with duplicates).
+// Unstratified, when set, lets the alternatives of a generated Choice begin
+// with a nonterminal (experiment only: such grammars have no agreed meaning).
+var Unstratified = false
+
 func Systematic(seed, k int) *Grammar {
 	state := uint64(seed)*0x9E3779B97F4A7C15 + uint64(k)*0xBF58476D1CE4E5B9 + 0x94D049BB133111EB
 	next := func(n int) int {
@@ -185,6 +189,9 @@ func Systematic(seed, k int) *Grammar {
 		// one rule body in five is a Choice (first match); its alternatives
 		// start with a terminal so that every nonterminal in them is guarded
 		choice := next(5) == 0
+		if Unstratified {
+			choice = next(2) == 0
+		}
 		nalt := 1 + next(3)
 		var alts []*G
 		sep := "|"
@@ -203,7 +210,7 @@ func Systematic(seed, k int) *Grammar {
 				var g *G
 				var n string
 				switch {
-				case l >= 2 && !(choice && j == 0) && ((j == 0 && next(3) == 0) || (j > 0 && next(8) == 0)):
+				case l >= 2 && !(choice && j == 0 && !Unstratified) && ((j == 0 && next(3) == 0) || (j > 0 && next(8) == 0)):
 					// an optional group of one or two terminals, or a repetition
 					t1, n1 := term()
 					switch next(3) {
@@ -222,7 +229,7 @@ func Systematic(seed, k int) *Grammar {
 					// no unit alternatives (cycles of unit rules multiply duplicates
 					// without adding trees), at most two nonterminals per alternative,
 					// and a terminal first in a Choice alternative
-					for g.K == KNT && (l == 1 || nts >= 2 || (choice && j == 0)) {
+					for g.K == KNT && (l == 1 || nts >= 2 || (choice && j == 0 && !Unstratified)) {
 						g, n = sym()
 					}
 					if g.K == KNT {
